@@ -30,6 +30,7 @@ type concScenario struct {
 	Post     []Op // sequential requests after the concurrent ones have completed (before the probes)
 	LocalSeq uint64
 	Supis    []string
+	Cgf      bool // CDR transfer to the (modelled) billing domain enabled
 }
 
 func usageOp(k string, s int, rg int32, req int32, used int32, tag int32, trig ...string) Op {
@@ -68,6 +69,15 @@ func concScenarios() []concScenario {
 		// next to a successful create of another subscriber, then one more create of that subscriber and consumer
 		{Name: "rejected-create-create", Accounts: one, Conc: []Op{func() Op { c := mkCreate(0, "smf1"); c.NoPSI = true; return c }(), crB},
 			Post: []Op{func() Op { c := mkCreate(1, "smf1"); c.CID = 13; return c }()}},
+		// ... next to a successful create of the same (so far unknown) subscriber
+		{Name: "rejected-create-create-same-subscriber", Accounts: one, Conc: []Op{func() Op { c := mkCreate(0, "smf1"); c.NoPSI = true; return c }(), crA2}},
+		{Name: "rejected-create-update", Accounts: one, Pre: []Op{crA1, upd0}, Conc: []Op{func() Op { c := mkCreate(0, "smf3"); c.NoPSI = true; c.CID = 14; return c }(), usageOp("update", 0, 1, 100, 60, 600)}},
+		// CDR transfer enabled: every request ends by sending the subscriber's file over the one FTP connection the CHF keeps
+		{Name: "cgf/create-create-two-subscribers", Accounts: one, Cgf: true, Conc: []Op{crA1, crB}},
+		{Name: "cgf/update-update-two-subscribers", Accounts: one, Cgf: true, Pre: []Op{crA1, crB, upd0, usageOp("update", 1, 1, 70, 0, 501)}, Conc: []Op{usageOp("update", 0, 1, 100, 100, 600), usageOp("update", 1, 1, 30, 70, 601)}},
+		{Name: "cgf/create-update-same-subscriber", Accounts: one, Cgf: true, Pre: []Op{crA1, upd0}, Conc: []Op{crA2, usageOp("update", 0, 1, 100, 60, 600)}},
+		// ... after the billing domain has closed the connection: the first request that notices logs in again
+		{Name: "cgf/update-update-after-connection-loss", Accounts: one, Cgf: true, Pre: []Op{crA1, crB, upd0, usageOp("update", 1, 1, 70, 0, 501), {K: "cgf-drop"}}, Conc: []Op{usageOp("update", 0, 1, 100, 100, 600), usageOp("update", 1, 1, 30, 70, 601)}},
 		{Name: "update-update-recharge", Accounts: []Account{{supiA, 1, "150", "2"}}, Pre: []Op{crA1, crA2, usageOp("update", 0, 1, 100, 0, 500)}, Conc: []Op{usageOp("update", 0, 1, 100, 75, 600), usageOp("update", 1, 1, 20, 0, 601), {K: "recharge", U: 0, RG: 1, Amt: 400}}},
 	}
 }
@@ -78,6 +88,7 @@ type concObs struct {
 	Bal   map[string]string `json:"bal"`
 	UEs   map[string]string `json:"ues"`
 	Seq   uint64            `json:"seq"`
+	Cgf   string            `json:"cgf,omitempty"` // files at the billing domain that differ from / are missing compared with the CHF's
 }
 
 func respBrief(st Step) string {
@@ -109,7 +120,7 @@ func concScenarioFn(sc concScenario, perm []int, noCredit ...bool) func() schedS
 			supis = sc.Supis
 		}
 		return schedScenario{
-			Cfg: WorldCfg{Accounts: sc.Accounts, LocalSeq: sc.LocalSeq, HorizonS: 120},
+			Cfg: WorldCfg{Accounts: sc.Accounts, LocalSeq: sc.LocalSeq, HorizonS: 120, Cgf: sc.Cgf},
 			Body: func(w *World, sctx *schedCtx) {
 				sctx.Go("T1", func() {
 					h := w.ExecOps(supis, sc.Pre, len(sc.Pre), false)
@@ -222,6 +233,12 @@ func concScenarioFn(sc concScenario, perm []int, noCredit ...bool) func() schedS
 				s := w.Snapshot(false)
 				o.Bal = s.Bal
 				o.Seq = s.LocalSeq
+				if s.Cgf != nil {
+					o.Cgf = fmt.Sprintf("stale=%v missing=%v", s.Cgf.Stale, s.Cgf.Missing)
+					if len(s.Cgf.Overlaps) > 0 {
+						fs = append(fs, Finding{"cdr-transfer/connection-used-by-two-requests-at-once/" + sc.Name, fmt.Sprintf("the FTP control connection to the billing domain carried two commands at once (its replies are then read by the wrong request): %v", s.Cgf.Overlaps)})
+					}
+				}
 				_ = sub
 				o.UEs = map[string]string{}
 				for supi, u := range s.UEs {
@@ -300,7 +317,7 @@ func concScenarioFn(sc concScenario, perm []int, noCredit ...bool) func() schedS
 					return false
 				}
 				switch k := kindOf(def); {
-				case k == "Lock", k == "Unlock", strings.HasPrefix(k, "Map."), strings.HasPrefix(k, "db."), strings.HasPrefix(k, "fs."), k == "start", k == "d.WLock":
+				case k == "Lock", k == "Unlock", strings.HasPrefix(k, "Map."), strings.HasPrefix(k, "db."), strings.HasPrefix(k, "fs."), strings.HasPrefix(k, "ftp."), k == "start", k == "d.WLock":
 					return true
 				}
 				return false
